@@ -66,6 +66,7 @@ class Contract:
     callsites: List[tuple] = field(default_factory=list)  # (call_regex, oid, tags): this fn is the only caller
     nohandle: List[tuple] = field(default_factory=list)   # (init_regex, at_regex, oid, tags): no local initialised by <init> is alive at <at>
     order: List[tuple] = field(default_factory=list)   # (first_regex, then_regex, oid, tags): the first statement precedes the second one
+    onlyholders: List[tuple] = field(default_factory=list)   # (type_regex, [struct names], oid, tags): only these structs have a field of that type
     mustcall: List[tuple] = field(default_factory=list)   # (call_regex, oid, tags): called unconditionally (top block of the body)
     sameas: Optional[tuple] = None   # (addr, regex, replacement, oid suffix, src)
     contains: List[tuple] = field(default_factory=list)   # (regex, oid, tags): the body still contains the call
@@ -202,6 +203,11 @@ def parse_file(path: str) -> List[Contract]:
             if not mm:
                 raise ContractError('%s: @order /first-regex/ before /then-regex/ <id> [tags]' % where)
             cur.order.append((mm.group(1), mm.group(2), mm.group(3), mm.group(4).split()))
+        elif d == 'onlyholders':
+            mm = re.match(r'/(.*?)/\s+in\s+([A-Za-z0-9_,\s]+?)\s+(\S+)\s+\[([^\]]*)\]\s*$', arg)
+            if not mm:
+                raise ContractError('%s: @onlyholders /type-regex/ in StructA, StructB <id> [tags]' % where)
+            cur.onlyholders.append((mm.group(1), [x.strip() for x in mm.group(2).split(',') if x.strip()], mm.group(3), mm.group(4).split()))
         elif d == 'nohandle':
             mm = re.match(r'/(.*?)/\s+at\s+/(.*)/\s+(\S+)\s+\[([^\]]*)\]\s*$', arg)
             if not mm:
